@@ -163,6 +163,9 @@ func init() {
 				c.kind = kindNames[5+r.intn(len(kindNames)-5)]
 			}
 			c.wrapper = pickWrapper(r, c.kind)
+			if r.chance(1, 12) {
+				c.wrapper = []string{"sample1h", "syncsample1h"}[r.intn(2)]
+			}
 			l := 5 + r.intn(40)
 			for i := 0; i < l; i++ {
 				sym := "aaaaaaabbburxfmignz"[r.intn(19)]
